@@ -42,6 +42,8 @@ SHAPES = ["plain", "opt", "list", "set"]
 def ann_text(f) -> str:
     kind, name = f["ep"]
     inner = name
+    if f["shape"] == "opt" and f.get("pep604"):
+        return f"{inner} | None"            # PEP 604 spelling of Optional (recognised since 2a64235)
     return {"plain": inner, "opt": f"Optional[{inner}]", "list": f"List[{inner}]", "set": f"Set[{inner}]"}[f["shape"]]
 
 
@@ -538,6 +540,8 @@ def shape_stats(d) -> Dict[str, int]:
         anc = chain(d, c["name"])
         for f in c["fields"]:
             k, n = f["ep"]
+            if f.get("pep604"):
+                inc("pep604_optional")
             if f["name"].startswith("_"):
                 inc("private")
             elif k == "b":
@@ -635,6 +639,8 @@ def gen_model(rng, idx: int, allow_k: bool) -> dict:
                         used.add(f2["name"])
                         fs.append(f2)
             f["default"] = dflt
+            if f["shape"] == "opt" and rng.chance(0.3):
+                f["pep604"] = True
             fs.append(f)
         classes.append({"name": n, "base": base[n], "fields": fs})
     # an unmapped (not handed to ClassDiagram), field-less dataclass between a class and its base
